@@ -49,7 +49,8 @@ PROP = {'gen': ['base64'],
                   'Serde/ViewDe.v (view / text / glyph deserialisers), Serde/Json.v (serde data model, derived Size), tied to the code '
                   'by the correspondence run',
                   'external deserialisers as oracles (rasterize, serde derive); the real answers are supplied per case',
-                  'layout / render of deserialised views is observed on the implementation only',
+                  'the C10 development, through Props/C10.v (C10_total) and the vtree constructors only; the node structure of view_tree is tied to the code by the layout-skeleton comparison of the run, its node contents are arbitrary',
+                  'rasterisation of glyphs is outside the theorems: run and judged for stand-alone glyphs outside the two known-finding classes',
                   HARNESS],
  'assumptions': ['attribute sets are an underline style (0..5) plus flags: after the repair of the compound assignment operators these are all values of FaceAttrs reachable through its public API',
                  'an image in memory has h*w pixels of 4 bytes with 4*h*w < 2^64; 64-bit usize',
